@@ -384,7 +384,14 @@ def build(run):
         vals = list(atoms)
         vals += [[a, b] for a in atoms[:6] for b in atoms[:4]] + [(a,) for a in atoms] + [{"k": a} for a in atoms] + [{"k": a, "l": b} for a in atoms[:5] for b in atoms[6:12]]
         vals += [{"k": [a, {"m": b}]} for a in atoms[:4] for b in atoms[5:12]]
+        # dicts whose insertion order is not the sorted key order (a dict is its sorted item tuple: equal dicts spelled in another
+        # order coincide, dicts with the values exchanged between keys do not), at the top level and nested
+        vals += [{"l": b, "k": a} for a in atoms[:5] for b in atoms[6:9]] + [{"l": a, "k": b} for a in atoms[:3] for b in atoms[6:8]]
+        vals += [{"z": 1, "a": 2, "m": 3}, {"a": 2, "m": 3, "z": 1}, {"z": 2, "a": 1, "m": 3}, {"m": 3, "z": 1, "a": 2}, {"z": 3, "a": 1, "m": 2}]
         mds = [{"x": v} for v in vals] + [{"y": v} for v in vals[:8]] + [None, {}]
+        mds += [{"quadrature_degree": 4, "precision": 8}, {"precision": 4, "quadrature_degree": 8}, {"precision": 8, "quadrature_degree": 4},
+                {"quadrature_rule": "vertex", "quadrature_degree": 1}, {"quadrature_degree": "vertex", "quadrature_rule": 1},
+                {"y": 1, "x": [1, 2]}, {"x": [1, 2], "y": 1}, {"y": [1, 2], "x": 1}]
         with warnings.catch_warnings():
             warnings.simplefilter("ignore")
             canon = [canonicalize_metadata(m) for m in mds]
